@@ -50,9 +50,13 @@ class Func:
                           for d in node.decorator_list)
         # decorators the interpreter applies by evaluating them (core.Interp.call_decorated); lru_cache / cache are modelled as
         # "results shared between calls" instead (self.cached)
-        self.decorators = [d for d in node.decorator_list
-                           if (dotted_of(d.func if isinstance(d, ast.Call) else d) or "").split(".")[-1] not in ("lru_cache", "cache")]
-        self.is_method = cls is not None and bool(self.posparams) and self.posparams[0] == "self"
+        dnames = [(dotted_of(d.func if isinstance(d, ast.Call) else d) or "") for d in node.decorator_list]
+        # @staticmethod: a plain function kept in the class namespace (no self); @property: the attribute read calls the getter
+        self.is_static = cls is not None and "staticmethod" in dnames
+        self.is_property = cls is not None and "property" in dnames
+        self.decorators = [d for d, nm in zip(node.decorator_list, dnames)
+                           if nm.split(".")[-1] not in ("lru_cache", "cache") and not (cls is not None and nm in ("staticmethod", "property"))]
+        self.is_method = cls is not None and not self.is_static and bool(self.posparams) and self.posparams[0] == "self"
 
     @property
     def params(self):
@@ -165,6 +169,8 @@ class Module:
                     continue          # modelled: the function's results are shared between calls (Func.cached)
                 if dn.split(".")[-1] == "wraps":
                     continue          # functools.wraps(f)(wrapper) is the wrapper
+                if dn in ("staticmethod", "property") and isinstance(n, ast.FunctionDef) and owner is not None and owner.count(".") >= 2:
+                    continue          # modelled (Func.is_static / Func.is_property)
                 # a decorated function is only a problem for the checks that analyse *it*
                 own = owner
                 if isinstance(n, ast.FunctionDef) and owner is not None and owner.endswith("." + n.name):
